@@ -488,13 +488,13 @@ def rand_te(h, rng, invalid=0.08, regs=None):
     return h.te(args, by=by, verbose=verbose, kw=kw)
 
 
-def value_for(rng, name, size, invalid=0.1):
+def value_for(rng, name, size, invalid=0.1, small=False):
     """a value to assign to the plural attribute `name` of an object whose flattened size is `size`"""
     def one(bad=False):
         if name == 'lam':
             return rand_lam(rng, 1.0 if bad else 0.0)
         if name == 'n_splines':
-            return rng.choice([0, 1, 2, -3]) if bad else rng.choice([5, 6, 8, 11, 20, 25])
+            return rng.choice([0, 1, 2, -3]) if bad else rng.choice([5, 6, 8] if small else [5, 6, 8, 11, 20, 25])
         if name == 'spline_order':
             return rng.choice([-1, 30]) if bad else rng.choice([0, 1, 2, 3])
         if name == 'penalties':
@@ -760,7 +760,13 @@ def gen_gam(rng):
         kinds = 'SSSS' + ('LF' if rng.random() < 0.4 else '')
         for _ in range(1 if mode == 'term' else rng.randint(1, 3)):
             if rng.random() < 0.15:
-                r = rand_te(h, rng, invalid=0.0)
+                # small tensor term (the model is fitted): two marginals, few splines
+                if rng.random() < 0.5:
+                    r = h.te([('f', 0), ('f', 1)], by=rng.choice([None, 3]), kw={'n_splines': rng.choice([4, [4, 5]])})
+                else:
+                    m1 = h.atom('S', {'feature': 0, 'n_splines': 5})
+                    m2 = h.atom(rng.choice('SL'), {'feature': 1})
+                    r = None if (m1 is None or m2 is None) else h.te([('r', m1), ('r', m2)])
             else:
                 k = rng.choice(kinds)
                 kw = {'S': lambda: _fit_spline_kw(rng), 'L': lambda: {'feature': rng.choice([0, 1, 3])},
@@ -781,12 +787,12 @@ def gen_gam(rng):
         for _ in range(rng.randint(1, 2)):
             name = rng.choice(['lam', 'lam', 'lam', 'n_splines', 'spline_order', 'penalties', 'constraints', 'basis', 'dtype'])
             if rng.random() < 0.5 or nterm == 0:
-                val = value_for(rng, name, 1, invalid=0.03)[0]
+                val = value_for(rng, name, 1, invalid=0.03, small=True)[0]
                 if isinstance(val, list):
                     val = val[0] if val else 1
             else:
                 n = nterm if rng.random() < 0.8 else nterm + 1
-                val = [value_for(rng, name, 1, invalid=0.0)[0] for _ in range(n)]
+                val = [value_for(rng, name, 1, invalid=0.0, small=True)[0] for _ in range(n)]
                 val = [v[0] if isinstance(v, list) and v else (v if not isinstance(v, list) else 1) for v in val]
             kw[name] = val
         if rng.random() < 0.05:
@@ -807,7 +813,7 @@ def gen_gam(rng):
                 size = len(flatten(getattr(h.env[g], name)))
             except Exception:  # noqa
                 size = 1
-            v, _ = value_for(rng, name, size, invalid=0.05)
+            v, _ = value_for(rng, name, size, invalid=0.05, small=True)
             h.set(g, name, v)
             if not h.dead:
                 h.get(g, name)
